@@ -18,6 +18,10 @@ int c_aggregate(int nval, int operator, int maxnan, int * aggindex,
     /* In case NAN is not defined */
     nan = 1./zero * zero;
 
+    /* At least one value is needed */
+    if(nval < 1)
+        return DUTILS_ERROR + __LINE__;
+
     /* Initialise */
     iaprev = aggindex[0];
     ia = 0;
@@ -139,6 +143,10 @@ int c_flathomogen(int nval, int maxnan, int * aggindex,
 
     /* In case NAN is not defined */
     nan = zero/zero;
+
+    /* At least one value is needed */
+    if(nval < 1)
+        return DUTILS_ERROR + __LINE__;
 
     /* Initialise */
     iaprev = aggindex[0];
